@@ -605,6 +605,51 @@ impl Drop for Z {
 }
 common_traits!(Z);
 
+/// Zero-sized element with alignment 8 (a ZST whose dangling pointers are not 1-aligned), counted destructor.
+#[repr(C)]
+pub struct Z8([u64; 0]);
+impl Elem for Z8 {
+    const NAME: &'static str = "Z8";
+    const ID_SPACE: u32 = 1;
+    const HAS_GEN: bool = false;
+    const TRACKED: bool = true;
+    fn make(_id: u32, _gen: u16) -> Self {
+        ZST_LIVE.fetch_add(1, Ordering::SeqCst);
+        ZST_MADE.fetch_add(1, Ordering::SeqCst);
+        Z8([])
+    }
+    fn id(&self) -> u32 {
+        0
+    }
+    fn gen(&self) -> u16 {
+        0
+    }
+    fn check(&self) -> bool {
+        if ZST_LIVE.load(Ordering::SeqCst) == 0 {
+            crate::viol!("reference to a Z8 element although none is live");
+            return false;
+        }
+        aligned(self)
+    }
+}
+impl Clone for Z8 {
+    fn clone(&self) -> Self {
+        fuse::tick(Class::Clone);
+        Z8::make(0, 0)
+    }
+}
+impl Drop for Z8 {
+    fn drop(&mut self) {
+        ZST_DROPPED.fetch_add(1, Ordering::SeqCst);
+        let prev = ZST_LIVE.fetch_update(Ordering::SeqCst, Ordering::SeqCst, |v| v.checked_sub(1));
+        if prev.is_err() && !ZST_UNDERFLOW.swap(true, Ordering::SeqCst) {
+            crate::viol!("more Z elements dropped than were created (double drop of a ZST)");
+        }
+        fuse::tick(Class::Drop);
+    }
+}
+common_traits!(Z8);
+
 /// Number of elements (tracked + ZST) that are live right now.
 pub fn live_now() -> u64 {
     reg(|r| r.live) + ZST_LIVE.load(Ordering::SeqCst)
